@@ -31,7 +31,10 @@ ASSUMPTIONS = [
 ]
 SMALL = ['C', 'CC', 'C=C', 'CO', 'C#C']
 LARGE = ['CCC', 'CCCC', 'CC(C)C', 'CC=C', 'CCO', 'COC', 'OCO', 'C=CC=C',
-         'CC(C)O', 'OCCO']   # distinct molecules: seeds form a set
+         'CC(C)O', 'OCCO',   # distinct molecules: seeds form a set
+         # unusual but legal: hetero-atoms above their default valence,
+         # formal charges (the valence filter works on default valences)
+         'CS(C)=O', 'C[N+](=O)[O-]', 'C[NH3+]', 'CSC', 'CN', 'CS', 'CP']
 
 _st = {}
 
